@@ -306,6 +306,36 @@ struct IoState {
     min_room: Option<usize>,
     read_events: Vec<String>,
     wakes_requested: usize,
+    // write side
+    wscript: VecDeque<Wr>,
+    fscript: VecDeque<Fl>,
+    sscript: VecDeque<Fl>,
+    written: Vec<u8>,
+    n_write: usize,
+    n_flush: usize,
+    n_shutdown: usize,
+    shut: bool,
+    zero_answers: usize,
+    empty_writes: usize,
+    /// total length of the encodings accepted by `start_send` so far (set by the harness)
+    expected_total: usize,
+    /// `poll_shutdown` was called while accepted bytes had not reached the transport
+    shutdown_early: Option<usize>,
+}
+
+#[derive(Clone, Debug, PartialEq)]
+enum Wr {
+    Accept(usize),
+    Pending,
+    Zero,
+    Err(io::ErrorKind),
+}
+
+#[derive(Clone, Debug, PartialEq)]
+enum Fl {
+    Ok,
+    Pending,
+    Err(io::ErrorKind),
 }
 
 #[derive(Clone)]
@@ -360,14 +390,73 @@ impl AsyncRead for ScriptedIo {
 }
 
 impl AsyncWrite for ScriptedIo {
-    fn poll_write(self: Pin<&mut Self>, _cx: &mut Context<'_>, buf: &[u8]) -> Poll<io::Result<usize>> {
-        Poll::Ready(Ok(buf.len()))
+    fn poll_write(self: Pin<&mut Self>, cx: &mut Context<'_>, buf: &[u8]) -> Poll<io::Result<usize>> {
+        let mut st = self.0.borrow_mut();
+        st.n_write += 1;
+        if st.n_write > 100_000 {
+            panic!("watchdog: poll_write called {} times", st.n_write);
+        }
+        if buf.is_empty() {
+            st.empty_writes += 1;
+        }
+        match st.wscript.pop_front() {
+            None => {
+                st.written.extend_from_slice(buf);
+                Poll::Ready(Ok(buf.len()))
+            }
+            Some(Wr::Accept(k)) => {
+                let n = k.min(buf.len());
+                st.written.extend_from_slice(&buf[..n]);
+                if n == 0 && !buf.is_empty() {
+                    st.zero_answers += 1;
+                }
+                Poll::Ready(Ok(n))
+            }
+            Some(Wr::Zero) => {
+                if !buf.is_empty() {
+                    st.zero_answers += 1;
+                }
+                Poll::Ready(Ok(0))
+            }
+            Some(Wr::Pending) => {
+                st.wakes_requested += 1;
+                cx.waker().wake_by_ref();
+                Poll::Pending
+            }
+            Some(Wr::Err(k)) => Poll::Ready(Err(io::Error::new(k, IO_MSG))),
+        }
     }
-    fn poll_flush(self: Pin<&mut Self>, _cx: &mut Context<'_>) -> Poll<io::Result<()>> {
-        Poll::Ready(Ok(()))
+    fn poll_flush(self: Pin<&mut Self>, cx: &mut Context<'_>) -> Poll<io::Result<()>> {
+        let mut st = self.0.borrow_mut();
+        st.n_flush += 1;
+        match st.fscript.pop_front() {
+            None | Some(Fl::Ok) => Poll::Ready(Ok(())),
+            Some(Fl::Pending) => {
+                st.wakes_requested += 1;
+                cx.waker().wake_by_ref();
+                Poll::Pending
+            }
+            Some(Fl::Err(k)) => Poll::Ready(Err(io::Error::new(k, IO_MSG))),
+        }
     }
-    fn poll_shutdown(self: Pin<&mut Self>, _cx: &mut Context<'_>) -> Poll<io::Result<()>> {
-        Poll::Ready(Ok(()))
+    fn poll_shutdown(self: Pin<&mut Self>, cx: &mut Context<'_>) -> Poll<io::Result<()>> {
+        let mut st = self.0.borrow_mut();
+        st.n_shutdown += 1;
+        if st.written.len() < st.expected_total && st.shutdown_early.is_none() {
+            st.shutdown_early = Some(st.expected_total - st.written.len());
+        }
+        match st.sscript.pop_front() {
+            None | Some(Fl::Ok) => {
+                st.shut = true;
+                Poll::Ready(Ok(()))
+            }
+            Some(Fl::Pending) => {
+                st.wakes_requested += 1;
+                cx.waker().wake_by_ref();
+                Poll::Pending
+            }
+            Some(Fl::Err(k)) => Poll::Ready(Err(io::Error::new(k, IO_MSG))),
+        }
     }
 }
 
@@ -562,6 +651,8 @@ struct Session {
     wake: Arc<CountWake>,
     outs: Vec<Out>,
     dead: bool,
+    /// concatenated encodings (computed by the harness, not by the codec) of the accepted items
+    accepted: Vec<u8>,
 }
 
 impl Session {
@@ -577,6 +668,7 @@ impl Session {
             wake: Arc::new(CountWake(AtomicUsize::new(0))),
             outs: vec![],
             dead: false,
+            accepted: vec![],
         }
     }
 
@@ -611,6 +703,19 @@ impl Session {
         let v = parts.read_buf.to_vec();
         self.framed = Some(Framed::from_parts(parts));
         v
+    }
+
+    fn write_buf(&mut self) -> Vec<u8> {
+        let parts = self.framed.take().unwrap().into_parts();
+        let v = parts.write_buf.to_vec();
+        self.framed = Some(Framed::from_parts(parts));
+        v
+    }
+
+    fn wr_counters(&mut self) -> String {
+        let wb = self.write_buf();
+        let io = self.io.0.borrow();
+        format!("w={} f={} s={} out={} wb={}", io.n_write, io.n_flush, io.n_shutdown, show_bytes(&io.written), show_bytes(&wb))
     }
 
     fn rd_counters(&mut self) -> String {
@@ -976,11 +1081,405 @@ fn gen_c13(a: &Args, w: &mut dyn Write) {
 }
 
 // ------------------------------------------------------------------------------------------------
+// C14: the write side of Framed
+// ------------------------------------------------------------------------------------------------
+
+const HW: usize = 8 * 1024;
+
+fn parse_wr(w: &str) -> Option<Wr> {
+    if w == "p" {
+        Some(Wr::Pending)
+    } else if w == "z" {
+        Some(Wr::Zero)
+    } else if let Some(k) = w.strip_prefix("a:") {
+        if k.is_empty() || !k.bytes().all(|c| c.is_ascii_digit()) {
+            return None;
+        }
+        k.parse::<usize>().ok().map(Wr::Accept)
+    } else if let Some(k) = w.strip_prefix("e:") {
+        parse_kind(k).map(Wr::Err)
+    } else {
+        None
+    }
+}
+
+fn parse_fl(w: &str) -> Option<Fl> {
+    if w == "ok" {
+        Some(Fl::Ok)
+    } else if w == "p" {
+        Some(Fl::Pending)
+    } else if let Some(k) = w.strip_prefix("e:") {
+        parse_kind(k).map(Fl::Err)
+    } else {
+        None
+    }
+}
+
+fn parse_item(w: &str) -> Option<Vec<u8>> {
+    if let Some(n) = w.strip_prefix("n:") {
+        if n.is_empty() || !n.bytes().all(|c| c.is_ascii_digit()) {
+            return None;
+        }
+        n.parse::<usize>().ok().filter(|n| *n <= 20000).map(|n| vec![b'a'; n])
+    } else {
+        unhex(w)
+    }
+}
+
+/// the encoding the harness expects (independent of the codec implementations)
+fn expected_encoding(sel: Sel, item: &[u8]) -> Vec<u8> {
+    match sel {
+        Sel::Lines => [item, b"\n"].concat(),
+        Sel::Bytes => item.to_vec(),
+        Sel::Len => [&[item.len() as u8][..], item].concat(),
+    }
+}
+
+#[derive(Clone, Copy, PartialEq, Debug)]
+enum SinkOp {
+    Ready,
+    Flush,
+    Close,
+}
+
+fn sink_res(r: Poll<Result<(), io::Error>>) -> String {
+    match r {
+        Poll::Pending => "pending".into(),
+        Poll::Ready(Ok(())) => "ok".into(),
+        Poll::Ready(Err(e)) => format!("err:{}", kind_str(e.kind())),
+    }
+}
+
+/// T3 for C14: evaluated after every op on the real transport record and the real write buffer
+fn oracle_c14(s: &mut Session, rep: &mut Report, what: &str) {
+    let wb = s.write_buf();
+    let io = s.io.0.borrow();
+    let mut have = io.written.clone();
+    have.extend_from_slice(&wb);
+    if have != s.accepted {
+        rep.t3(
+            "C14",
+            &format!("after {what}: transport got {} + buffered {} != encodings of the accepted items {}", show_bytes(&io.written), show_bytes(&wb), show_bytes(&s.accepted)),
+        );
+    }
+    if let Some(n) = io.shutdown_early {
+        rep.t3("C14", &format!("after {what}: poll_shutdown was called while {n} accepted bytes had not been written to the transport"));
+    }
+    if io.empty_writes > 0 {
+        rep.t3("C14", "poll_write was called with an empty buffer");
+    }
+}
+
+fn step_c14(ws: &[&str], s: &mut Session, rep: &mut Report) -> Option<String> {
+    use futures_sink::Sink;
+    Some(match ws {
+        ["wscript", evs @ ..] => match evs.iter().map(|w| parse_wr(w)).collect::<Option<Vec<Wr>>>() {
+            Some(es) => {
+                let mut io = s.io.0.borrow_mut();
+                io.wscript.extend(es);
+                format!("ok {}", io.wscript.len())
+            }
+            None => "bad-op".into(),
+        },
+        ["fscript", evs @ ..] => match evs.iter().map(|w| parse_fl(w)).collect::<Option<Vec<Fl>>>() {
+            Some(es) => {
+                let mut io = s.io.0.borrow_mut();
+                io.fscript.extend(es);
+                format!("ok {}", io.fscript.len())
+            }
+            None => "bad-op".into(),
+        },
+        ["sscript", evs @ ..] => match evs.iter().map(|w| parse_fl(w)).collect::<Option<Vec<Fl>>>() {
+            Some(es) => {
+                let mut io = s.io.0.borrow_mut();
+                io.sscript.extend(es);
+                format!("ok {}", io.sscript.len())
+            }
+            None => "bad-op".into(),
+        },
+        ["send", it] => match parse_item(it) {
+            Some(item) => {
+                if s.dead {
+                    return Some("panic".into());
+                }
+                let framed = s.framed.as_mut().unwrap();
+                let r = catch(|| Sink::<Vec<u8>>::start_send(Pin::new(&mut *framed), item.clone()));
+                let res = match r {
+                    Err(_) => {
+                        s.dead = true;
+                        return Some("panic".into());
+                    }
+                    Ok(Ok(())) => {
+                        s.accepted.extend_from_slice(&expected_encoding(s.sel, &item));
+                        s.io.0.borrow_mut().expected_total = s.accepted.len();
+                        "ok".to_string()
+                    }
+                    Ok(Err(e)) => format!("err:{}", kind_str(e.kind())),
+                };
+                let o = format!("{res} {}", s.wr_counters());
+                oracle_c14(s, rep, "start_send");
+                o
+            }
+            None => "bad-op".into(),
+        },
+        [op @ ("ready" | "flush" | "close")] => {
+            if s.dead {
+                return Some("panic".into());
+            }
+            let op = match *op {
+                "ready" => SinkOp::Ready,
+                "flush" => SinkOp::Flush,
+                _ => SinkOp::Close,
+            };
+            let wb_before = s.write_buf().len();
+            let (w0, f0, sh0, z0) = {
+                let io = s.io.0.borrow();
+                (io.n_write, io.n_flush, io.n_shutdown, io.zero_answers)
+            };
+            let waker = Waker::from(s.wake.clone());
+            let mut cx = Context::from_waker(&waker);
+            let framed = s.framed.as_mut().unwrap();
+            let r = catch(|| {
+                let f = Pin::new(&mut *framed);
+                match op {
+                    SinkOp::Ready => Sink::<Vec<u8>>::poll_ready(f, &mut cx),
+                    SinkOp::Flush => Sink::<Vec<u8>>::poll_flush(f, &mut cx),
+                    SinkOp::Close => Sink::<Vec<u8>>::poll_close(f, &mut cx),
+                }
+            });
+            let r = match r {
+                Err(_) => {
+                    s.dead = true;
+                    rep.t3("C14", &format!("{op:?} panicked or did not return (watchdog)"));
+                    return Some("panic".into());
+                }
+                Ok(r) => r,
+            };
+            let is_ok = matches!(r, Poll::Ready(Ok(())));
+            let is_write_zero = matches!(&r, Poll::Ready(Err(e)) if e.kind() == io::ErrorKind::WriteZero);
+            let res = sink_res(r);
+            let o = format!("{res} {}", s.wr_counters());
+            // T3
+            let wb_after = s.write_buf().len();
+            let (w1, f1, sh1, z1, shut) = {
+                let io = s.io.0.borrow();
+                (io.n_write, io.n_flush, io.n_shutdown, io.zero_answers, io.shut)
+            };
+            match op {
+                SinkOp::Flush => {
+                    if is_ok && wb_after != 0 {
+                        rep.t3("C14", &format!("poll_flush answered Ready(Ok) with {wb_after} bytes still buffered"));
+                    }
+                }
+                SinkOp::Close => {
+                    if is_ok && wb_after != 0 {
+                        rep.t3("C14", &format!("poll_close answered Ready(Ok) with {wb_after} bytes still buffered (write_buf not flushed)"));
+                    }
+                    if is_ok && !shut {
+                        rep.t3("C14", "poll_close answered Ready(Ok) but the transport was not shut down");
+                    }
+                }
+                SinkOp::Ready => {
+                    if wb_before < HW {
+                        if !is_ok || w1 != w0 || f1 != f0 || sh1 != sh0 {
+                            rep.t3("C14", &format!("poll_ready with {wb_before} < HW bytes buffered answered {res} and touched the transport ({} writes, {} flushes)", w1 - w0, f1 - f0));
+                        }
+                    } else {
+                        if w1 == w0 {
+                            rep.t3("C14", &format!("poll_ready with {wb_before} >= HW bytes buffered exerted no back-pressure (no write attempted, answered {res})"));
+                        }
+                        if is_ok && wb_after != 0 {
+                            rep.t3("C14", &format!("poll_ready at the high-water mark answered Ready(Ok) with {wb_after} bytes still buffered"));
+                        }
+                    }
+                }
+            }
+            if z1 > z0 && !is_write_zero {
+                rep.t3("C14", &format!("the transport accepted 0 bytes of a non-empty buffer but {op:?} answered {res}, not WriteZero"));
+            }
+            oracle_c14(s, rep, &format!("{op:?}"));
+            o
+        }
+        _ => return None,
+    })
+}
+
+struct WConfig {
+    sel: Sel,
+    sizes: Vec<usize>,
+    wscript: Vec<Wr>,
+    fscript: Vec<Fl>,
+    sscript: Vec<Fl>,
+}
+
+fn show_wr(e: &Wr) -> String {
+    match e {
+        Wr::Accept(k) => format!("a:{k}"),
+        Wr::Pending => "p".into(),
+        Wr::Zero => "z".into(),
+        Wr::Err(k) => format!("e:{}", kind_str(*k)),
+    }
+}
+fn show_fl(e: &Fl) -> String {
+    match e {
+        Fl::Ok => "ok".into(),
+        Fl::Pending => "p".into(),
+        Fl::Err(k) => format!("e:{}", kind_str(*k)),
+    }
+}
+
+fn random_wconfig(rng: &mut Rng) -> WConfig {
+    let sel = *rng.pick(&[Sel::Lines, Sel::Bytes, Sel::Len]);
+    let size_pool: &[usize] = match rng.below(4) {
+        0 => &[0, 1, 2, 3, 5],
+        1 => &[1022, 1023, 1024, 1025, 1, 0],
+        2 => &[4000, 4095, 4096, 4097, 8190, 8191, 8192, 8193, 100],
+        _ => &[0, 1, 7, 254, 255, 300, 1024, 3000, 8191, 9000],
+    };
+    let sizes = (0..rng.range(1, 5)).map(|_| *rng.pick(size_pool)).collect();
+    let acc_pool: &[usize] = &[0, 1, 2, 3, 100, 1023, 1024, 1025, 4096, 8191, 8192, 8193, 100000];
+    let wscript = (0..rng.below(9))
+        .map(|_| match rng.below(10) {
+            0 => Wr::Pending,
+            1 => Wr::Zero,
+            2 => Wr::Err(*rng.pick(&[io::ErrorKind::BrokenPipe, io::ErrorKind::ConnectionReset, io::ErrorKind::WouldBlock, io::ErrorKind::WriteZero])),
+            _ => Wr::Accept(*rng.pick(acc_pool)),
+        })
+        .collect();
+    let fl = |rng: &mut Rng| {
+        (0..rng.below(4))
+            .map(|_| match rng.below(4) {
+                0 => Fl::Pending,
+                1 => Fl::Err(*rng.pick(&[io::ErrorKind::BrokenPipe, io::ErrorKind::TimedOut])),
+                _ => Fl::Ok,
+            })
+            .collect::<Vec<Fl>>()
+    };
+    let fscript = fl(rng);
+    let sscript = fl(rng);
+    WConfig { sel, sizes, wscript, fscript, sscript }
+}
+
+fn emit_c14(w: &mut dyn Write, id: &mut usize, tag: &str, cfg: &WConfig, ops: &[u8]) {
+    *id += 1;
+    writeln!(w, "case c14-{tag}-{} codec={}", *id, cfg.sel.name()).unwrap();
+    if !cfg.wscript.is_empty() {
+        writeln!(w, "wscript {}", cfg.wscript.iter().map(show_wr).collect::<Vec<_>>().join(" ")).unwrap();
+    }
+    if !cfg.fscript.is_empty() {
+        writeln!(w, "fscript {}", cfg.fscript.iter().map(show_fl).collect::<Vec<_>>().join(" ")).unwrap();
+    }
+    if !cfg.sscript.is_empty() {
+        writeln!(w, "sscript {}", cfg.sscript.iter().map(show_fl).collect::<Vec<_>>().join(" ")).unwrap();
+    }
+    let mut k = 0;
+    for op in ops {
+        match op {
+            0 => {
+                let n = cfg.sizes[k % cfg.sizes.len()];
+                k += 1;
+                if n <= 4 {
+                    writeln!(w, "send {}", hex(&b"a\xc3\xa9b"[..n])).unwrap();
+                } else {
+                    writeln!(w, "send n:{n}").unwrap();
+                }
+            }
+            1 => writeln!(w, "ready").unwrap(),
+            2 => writeln!(w, "flush").unwrap(),
+            _ => writeln!(w, "close").unwrap(),
+        }
+    }
+}
+
+fn gen_c14(a: &Args, w: &mut dyn Write) {
+    let thorough = a.tier == "thorough";
+    let mut id = 0usize;
+    let mut rng = Rng::new(a.seed ^ 0x14);
+    use io::ErrorKind as K;
+    // hand-written configurations: the marks, partial writes, Pending, zero, errors, every codec
+    let fixed = vec![
+        WConfig { sel: Sel::Lines, sizes: vec![1, 0, 3], wscript: vec![], fscript: vec![], sscript: vec![] },
+        WConfig {
+            sel: Sel::Lines,
+            sizes: vec![2],
+            wscript: vec![Wr::Accept(1), Wr::Pending, Wr::Accept(2), Wr::Zero, Wr::Accept(100), Wr::Err(K::BrokenPipe), Wr::Pending, Wr::Accept(1)],
+            fscript: vec![Fl::Pending, Fl::Ok, Fl::Err(K::TimedOut)],
+            sscript: vec![Fl::Pending, Fl::Ok],
+        },
+        WConfig {
+            sel: Sel::Len,
+            sizes: vec![3, 300, 0, 254, 255],
+            wscript: vec![Wr::Accept(2), Wr::Accept(2), Wr::Pending, Wr::Accept(0), Wr::Accept(1000)],
+            fscript: vec![Fl::Err(K::BrokenPipe)],
+            sscript: vec![Fl::Err(K::NotConnected), Fl::Ok],
+        },
+        WConfig {
+            sel: Sel::Bytes,
+            sizes: vec![4000, 4200, 100],
+            wscript: vec![Wr::Accept(5000), Wr::Pending, Wr::Accept(100000), Wr::Accept(1)],
+            fscript: vec![],
+            sscript: vec![Fl::Pending],
+        },
+        // 8190 + LF = 8191 < HW: ready without I/O; one more LF = 8192 = HW: ready must flush
+        WConfig { sel: Sel::Lines, sizes: vec![8190, 0, 1], wscript: vec![Wr::Accept(8191), Wr::Accept(1), Wr::Pending], fscript: vec![], sscript: vec![] },
+        WConfig {
+            sel: Sel::Bytes,
+            sizes: vec![1023, 1, 1024, 1025, 8192],
+            wscript: vec![Wr::Accept(1024), Wr::Accept(1), Wr::Pending, Wr::Accept(1023), Wr::Err(K::ConnectionReset)],
+            fscript: vec![Fl::Ok, Fl::Pending],
+            sscript: vec![],
+        },
+    ];
+    // (A) every interleaving of start_send / poll_ready / poll_flush / poll_close up to the bound
+    let l = if thorough { 8 } else { 6 };
+    let nrand = if thorough { 1 } else { 3 };
+    all_strings(&[0, 1, 2, 3], l, &mut |ops| {
+        if ops.is_empty() {
+            return;
+        }
+        if ops.len() <= 6 {
+            for cfg in &fixed {
+                emit_c14(w, &mut id, "seq", cfg, ops);
+            }
+        } else {
+            let which = (id / 7) % fixed.len();
+            emit_c14(w, &mut id, "seq", &fixed[which], ops);
+        }
+        for _ in 0..nrand {
+            let cfg = random_wconfig(&mut rng);
+            emit_c14(w, &mut id, "seqr", &cfg, ops);
+        }
+    });
+    // (B) longer random runs (shorter when the items are large: the streams stay below ~100 KiB)
+    let cases = if thorough { 20000 } else { 2500 };
+    for _ in 0..cases {
+        let cfg = random_wconfig(&mut rng);
+        let big = cfg.sizes.iter().any(|n| *n > 2000);
+        let n = if big { rng.range(7, 14) } else { rng.range(7, 40) };
+        let ops: Vec<u8> = (0..n)
+            .map(|_| match rng.below(10) {
+                0..=3 => 0,
+                4..=6 => 1,
+                7 | 8 => 2,
+                _ => 3,
+            })
+            .collect();
+        emit_c14(w, &mut id, "rand", &cfg, &ops);
+    }
+    // (C) malformed ops: rejected identically by both sides
+    writeln!(w, "case c14-malformed codec=bytes").unwrap();
+    for l in ["wscript a:", "wscript a:x", "wscript q", "fscript a:1", "sscript z", "send", "send n:", "send n:20001", "send 6", "ready now", "flush 1", "close x", "send n:20000", "flush"] {
+        writeln!(w, "{l}").unwrap();
+    }
+}
+
+// ------------------------------------------------------------------------------------------------
 
 fn gen(a: &Args) {
     let mut w = out_writer(&a.output);
     match a.prop.as_str() {
         "C13" => gen_c13(a, &mut *w),
+        "C14" => gen_c14(a, &mut *w),
         "C15" => gen_c15(a, &mut *w),
         p => {
             eprintln!("codec: unknown property {p}");
@@ -1022,9 +1521,14 @@ fn run(a: &Args) {
                 }
             },
             _ => {
-                let r = catch(|| match step_c13(&ws, &mut sess, &mut rep) {
-                    Some(o) => Some(o),
-                    None => step_c15(&ws, &mut rep),
+                let r = catch(|| {
+                    if let Some(o) = step_c13(&ws, &mut sess, &mut rep) {
+                        return Some(o);
+                    }
+                    if let Some(o) = step_c14(&ws, &mut sess, &mut rep) {
+                        return Some(o);
+                    }
+                    step_c15(&ws, &mut rep)
                 });
                 match r {
                     Ok(Some(o)) => o,
